@@ -3,7 +3,7 @@ CFG = {
     "level_text": "Lean theorems prove, for every object built from literals, `+` and objectRemoveKey (any depth) and every field name and start layer, that the four independent layer walkers of obj/mod.rs (field read incl. `+:` accumulation order, hidden-inclusive existence, per-name visibility, global field listing) compute exactly the language-level meaning (right-most definition wins, `+:` chains down to the first plain definition, top-most ::/::: marker wins, removed keys masked only within the object they were removed from), that `super` reads from any layer are reads on the constructible object of the layers to its left, that each contribution is bound to its own layer's super index, that the global and per-name visibility walkers agree on every layer vector, and that field listings are strictly ascending. The model is tied to the code by comparing `compile t` with the real builder's layer vector (hook) and by a differential run through the evaluator.",
     "level_note": "Trusted: Lean kernel; hand model of the four loops (validated by correspondence on exhaustive 2-/3-layer chains + random terms); field bodies are opaque payloads (late binding of self/$ inside bodies, object locals and assertions are exercised by the C01 interpreter correspondence, not proved here); StandaloneSuperCore (bare `super`) not modelled.",
     "technique": "Lean 4 proof by induction over object terms (simulation of saturating-skip walkers by term semantics) + hook-based structure tie + differential correspondence",
-    "engines": ["c02"],
+    "engines": ["c02", "c02a"],
     "assumptions": [
         "field names inside one literal are distinct (the builder rejects duplicates)",
         "hash-map iteration order inside a layer is irrelevant per name (each name occurs at most once per layer)",
